@@ -261,7 +261,7 @@ func TestC13(t *testing.T) {
 			nontrivial = nontrivial || nonEmpty
 			unchanged(fmt.Sprintf("the refused Reweight(%v)", w))
 		case "constructors":
-			a := rapid.SampledFrom([]float64{0, math.Copysign(0, -1), -1e-9, -1, 1, math.Nextafter(1, 2), 2, math.Inf(1), math.Inf(-1), 5e-324, math.Nextafter(1, 0), 0.5, 1e-6, 0.99}).Draw(t, "alpha")
+			a := rapid.SampledFrom([]float64{0, math.Copysign(0, -1), -1e-9, -1, 1, math.Nextafter(1, 2), 2, math.Inf(1), math.Inf(-1), 5e-324, 1e-300, 1e-17, 5e-17, 1.2e-16, 1e-15, 1e-12, 1e-10, math.Nextafter(1, 0), 0.5, 1e-6, 0.99}).Draw(t, "alpha")
 			valid := a > 0 && a < 1
 			cl.logf("call constructors(alpha=%v) and (gamma=...)", a)
 			type ctor struct {
@@ -282,12 +282,53 @@ func TestC13(t *testing.T) {
 			}
 			for _, k := range cs {
 				err := k.f()
-				if valid && err != nil {
+				// an accuracy so small that the base (1+a)/(1-a) is rounded to 1 cannot be honoured: refusing it is the
+				// "base not above one" refusal (what is never acceptable is neither a mapping nor an error, see below)
+				if valid && err != nil && a >= 1e-15 {
 					t.Fatalf("C13: %s(%v) refused a valid accuracy: %v", k.name, a, err)
 				}
 				if !valid && err == nil {
 					t.Fatalf("C13: %s(%v) accepted an accuracy outside (0,1)", k.name, a)
 				}
+			}
+			// a constructor returns a usable object or an error, never neither
+			for name, f := range map[string]func() (mapping.IndexMapping, error){
+				"NewLogarithmicMapping": func() (mapping.IndexMapping, error) {
+					m, e := mapping.NewLogarithmicMapping(a)
+					if m == nil {
+						return nil, e
+					}
+					return m, e
+				},
+				"NewLinearlyInterpolatedMapping": func() (mapping.IndexMapping, error) {
+					m, e := mapping.NewLinearlyInterpolatedMapping(a)
+					if m == nil {
+						return nil, e
+					}
+					return m, e
+				},
+				"NewCubicallyInterpolatedMapping": func() (mapping.IndexMapping, error) {
+					m, e := mapping.NewCubicallyInterpolatedMapping(a)
+					if m == nil {
+						return nil, e
+					}
+					return m, e
+				},
+			} {
+				m, err := f()
+				if (m == nil) == (err == nil) {
+					t.Fatalf("C13: %s(%v) returned mapping=%v and error=%v", name, a, m, err)
+				}
+			}
+			if sk, err := ddsketch.NewDefaultDDSketch(a); err == nil {
+				func() {
+					defer func() {
+						if r := recover(); r != nil {
+							t.Fatalf("C13: NewDefaultDDSketch(%v) returned no error but the sketch panics on Add: %v", a, r)
+						}
+					}()
+					_ = sk.Add(1)
+				}()
 			}
 			gam := rapid.SampledFrom([]float64{1, math.Nextafter(1, 0), 0, -1, 0.5, math.Inf(-1), math.Nextafter(1, 2), 1.02, 2, 1e6}).Draw(t, "gamma")
 			gvalid := gam > 1
@@ -336,5 +377,72 @@ func TestC13(t *testing.T) {
 			unchanged("constructor calls")
 		}
 		cl.done(nontrivial)
+	})
+}
+
+// TestC13_DegenerateRange: mappings whose indexable range is empty or lies at the end of the float range (accuracies
+// below 2.3e-10, huge index offsets as a decoder can receive): whatever the range, a value above the largest indexable
+// value, an infinity or NaN is refused with the documented error and changes nothing; everything else is accepted.
+func TestC13_DegenerateRange(t *testing.T) {
+	rapid.Check(t, func(t *rapid.T) {
+		cl := newCase("C13")
+		cl.label("degenerate-range")
+		var spec gen.MapSpec
+		kind := rapid.SampledFrom(gen.MapKinds).Draw(t, "kind")
+		if rapid.Bool().Draw(t, "fromalpha") {
+			a := rapid.SampledFrom([]float64{1e-10, 2e-10, 2.4e-10, 1e-12, 1e-15, 3e-10}).Draw(t, "alpha")
+			spec = gen.MapSpec{Kind: kind, FromAlpha: true, Alpha: a}
+		} else {
+			g := rapid.SampledFrom([]float64{1.02, 1.0001, 2, 1.5}).Draw(t, "gamma")
+			o := rapid.SampledFrom([]float64{-1e11, 1e11, 3e9, -3e9, 2.2e9, -2.2e9, 1e15, -1e15, 2147483647, -2147483648}).Draw(t, "offset")
+			spec = gen.MapSpec{Kind: kind, Gamma: g, Offset: o}
+		}
+		m, err := spec.Build()
+		if err != nil {
+			t.Skip("mapping refused")
+		}
+		mn, mx := m.MinIndexableValue(), m.MaxIndexableValue()
+		if math.IsNaN(mx) || math.IsNaN(mn) {
+			t.Skip("bounds are NaN")
+		}
+		cl.logf("C13 degenerate %s: indexable range [%v,%v]", spec, mn, mx)
+		cl.labelIf(!(mn < mx), "range:empty")
+		exact := rapid.Bool().Draw(t, "exact")
+		s := obs.NewSK(exact, m, func() store.Store { return store.NewSparseStore() }, func() store.Store { return store.NewSparseStore() })
+		accepted := 0.0
+		probes := []float64{1, -1, 0.1, -0.1, 10, math.Inf(1), math.Inf(-1), math.MaxFloat64, -math.MaxFloat64, math.NaN(), mx, -mx, gen.NextUp(mx, 1), -gen.NextUp(mx, 1), gen.NextUp(mx, -1), mn, 0, 5e-324, 1e300, -1e300, 1e-300}
+		for _, v := range probes {
+			w := rapid.SampledFrom([]float64{1, 1, 2.5, 0}).Draw(t, "w")
+			before := s.GetCount()
+			err := s.AddWithCount(v, w)
+			var want error
+			switch {
+			case math.IsNaN(v):
+				want = ddsketch.ErrUntrackableNaN
+			case v > mx:
+				want = ddsketch.ErrUntrackableTooHigh
+			case v < -mx:
+				want = ddsketch.ErrUntrackableTooLow
+			}
+			cl.logf("AddWithCount(%v,%v) -> %v", v, w, err)
+			if want != nil {
+				if !errors.Is(err, want) {
+					t.Fatalf("C13 degenerate %s (range [%v,%v], exact=%v): AddWithCount(%v,%v) returned %v, expected %v", spec, mn, mx, exact, v, w, err, want)
+				}
+				if s.GetCount() != before {
+					t.Fatalf("C13 degenerate %s: the refused AddWithCount(%v,%v) changed the count from %v to %v", spec, v, w, before, s.GetCount())
+				}
+				cl.label("refused-add")
+			} else {
+				if err != nil {
+					t.Fatalf("C13 degenerate %s (range [%v,%v]): AddWithCount(%v,%v) (not above the largest indexable value) refused: %v", spec, mn, mx, v, w, err)
+				}
+				accepted += w
+				if got := s.GetCount(); got != accepted {
+					t.Fatalf("C13 degenerate %s: count %v after accepting a total weight of %v", spec, got, accepted)
+				}
+			}
+		}
+		cl.done(true)
 	})
 }
